@@ -119,4 +119,20 @@ def rootsRead (cfg : Config) : Bool :=
   cfg.services.all (fun s => !s.routes.isEmpty || (Spec.readTemplateJ s.rootPath []).isSome)
 
 end Jsr
+
+namespace Curly
+
+/-- CurlyRouter scores the root path of every service, also of one without routes (for which
+    `Config.wfTemplates` says nothing), and since fix 19aa57d it evaluates the expression of a
+    `{name:regex}` root token: the root of a route-less service must read as a template too, and
+    none of its tokens may carry a custom verb (`computeWebserviceScore` does not strip `:verb`
+    before it cuts the expression out of the token; for a service WITH routes `wfTemplates`
+    already excludes a verb on a root token) -/
+def rootsRead (cfg : Config) : Bool :=
+  cfg.services.all (fun s => !s.routes.isEmpty ||
+    (match readToks (tokenize s.rootPath) with
+     | some ts => ts.all (fun t => t.verb.isNone)
+     | none => false))
+
+end Curly
 end Restful
